@@ -20,8 +20,10 @@ def run_case(case, binary, shim):
     inp = os.path.join(d, "in-%d.txt" % case["case"])
     with open(inp, "wb") as f:
         f.write(data)
+    outp = os.path.join(d, "out-%d.txt" % case["case"])
     variants = [
         ("file", base + [inp], None, {}),
+        ("file+output-file", base + ["-o", outp, inp], None, {}),
         ("stdin", base, data, {}),
         ("stdin+shim", base, data, {"LD_PRELOAD": shim, "VSHIM_SEED": str(case["shim_seed"])}),
     ]
@@ -37,11 +39,24 @@ def run_case(case, binary, shim):
             cls = "interpreter-crash" if p.returncode < 0 else "exit-status"
             return {"case": case["case"], "ok": False, "class": cls, "site": "%s:%d" % (name, p.returncode),
                     "detail": {"stderr": p.stderr.decode("utf-8", "replace")[-400:]}}
-        if p.stdout != exp:
-            got = p.stdout.decode("utf-8", "replace").split("\n")
+        produced = p.stdout
+        if name == "file+output-file":
+            # -o: everything goes to the file, nothing to stdout
+            try:
+                with open(outp, "rb") as f:
+                    produced = f.read()
+                os.remove(outp)
+            except OSError:
+                produced = b"<no output file>"
+            if p.stdout:
+                produced = b"<stdout not empty>" + p.stdout
+        if produced != exp:
+            got = produced.decode("utf-8", "replace").split("\n")
             want = case["expected"].split("\n")
             line = next((i for i in range(min(len(got), len(want))) if got[i] != want[i]), min(len(got), len(want)))
             cls = "stdout-differs" if name != "stdin+shim" else "shim-changes-output"
+            if name == "file+output-file":
+                cls = "output-file-differs"
             return {"case": case["case"], "ok": False, "class": cls, "site": name,
                     "detail": {"line": line, "got": (got[line] if line < len(got) else "<eof>")[:200],
                                "expected": (want[line] if line < len(want) else "<eof>")[:200], "args": case["args"]}}
